@@ -428,6 +428,27 @@ def rule_wnaf_exp(fx, rep):
                 nm = c.get('name')
                 res_ = c.get('res') or c['def']
                 args = t['args']
+                # comparisons / sign queries on a symbolic odd digit of known sign
+                if c.get('trait') in ('std::cmp::Ord', 'std::cmp::PartialOrd') and nm in ('cmp', 'partial_cmp') and len(args) == 2:
+                    a_ = fr.deref_operand(args[0])
+                    b_ = fr.deref_operand(args[1])
+                    if isinstance(a_, Digit) and isinstance(b_, Int) and b_.v == 0:
+                        o_ = Agg([], ('std::cmp::Ordering', 'Greater' if a_.sign > 0 else ('Less' if a_.sign < 0 else 'Equal')))
+                        fr.storev(t['dest'], o_ if nm == 'cmp' else Opt('some', o_))
+                        return True
+                if (c['def'].startswith('core::num::<impl i64>::') or c['def'].startswith('std::num::<impl i64>::')) and args:
+                    a_ = fr.operand(args[0])
+                    m_ = c['def'].rsplit('::', 1)[-1]
+                    if isinstance(a_, Digit):
+                        if m_ == 'signum':
+                            fr.storev(t['dest'], Int(a_.sign & ((1 << 64) - 1) if a_.sign < 0 else a_.sign))
+                            return True
+                        if m_ in ('is_positive', 'is_negative'):
+                            fr.storev(t['dest'], Int(int(a_.sign > 0 if m_ == 'is_positive' else a_.sign < 0), 1))
+                            return True
+                        if m_ in ('abs', 'wrapping_abs', 'unsigned_abs'):
+                            fr.storev(t['dest'], Digit(abs(a_.sign), a_.m))
+                            return True
                 if nm == 'rev' and c.get('trait') == 'std::iter::Iterator':
                     v = fr.operand(args[0])
                     if isinstance(v, exp.SliceIt):
